@@ -6,6 +6,8 @@ CONSTANTS
   MaxSeq = 13
   RenewMayFail = FALSE
   Gen = FALSE
+  MayAbort = TRUE
+  Dev_ResetSeqOnAbort = FALSE
   Dev_GateGap = TRUE
   Dev_FailedRenewSeq = FALSE
 INIT Init
